@@ -78,13 +78,13 @@ def value_snapshot(st, v, depth=0):
         return ("num", repr(st.norm(v.rf)))
     if isinstance(v, QtyV):
         tid = st.tfind(v.tid) if v.tid is not None else None
-        if v.amount is not None and v.unit is not None and tid is not None and st.U(v.unit.uid).mu is not None:
+        if isinstance(v.amount, Num) and isinstance(v.unit, UnitV) and tid is not None and st.U(v.unit.uid).mu is not None:
             # by value: the type and the exact amount in reference units (1 km and 1000 m are one result)
             # (for quantized types: the exact value that was rounded, how often, and under which ambient state)
             return ("qty", tid, "value", repr(st.norm(st.expand_rnd(v.amount.rf) * st.U(v.unit.uid).mu)),
                     st.rnd_depth(v.amount.rf), st.rnd_epochs(v.amount.rf))
-        return ("qty", tid, st.ufind(v.unit.uid) if v.unit is not None else None,
-                repr(st.norm(v.amount.rf)) if v.amount is not None else None)
+        return ("qty", tid, st.ufind(v.unit.uid) if isinstance(v.unit, UnitV) else repr(v.unit),
+                repr(st.norm(v.amount.rf)) if isinstance(v.amount, Num) else repr(v.amount))
     if isinstance(v, UnitV):
         return ("unit", st.ufind(v.uid))
     if isinstance(v, ClsV):
